@@ -49,6 +49,9 @@ func spec_sumText(keys []string, data map[string]string, n int) string {
 //@   ensures (result1 == nil) == (result0 != nil)
 //@   ensures result0 != nil ==> fresh(result0) && result0.Dir == modRoot && result0.Data != nil
 //@   loop 1 invariant sum != nil && sum.Data != nil && sum.Dir == modRoot
+//@   loop 1 ensures len(bytes.Fields(ys1[it1-1])) >= 2 ==> has(sum.Data, string(bytes.Fields(ys1[it1-1])[0])) && sum.Data[string(bytes.Fields(ys1[it1-1])[0])] == string(bytes.Fields(ys1[it1-1])[1])
+//@   loop 1 ensures forall k string :: (len(bytes.Fields(ys1[it1-1])) < 2 || k != string(bytes.Fields(ys1[it1-1])[0])) ==> has(sum.Data, k) == entry(has(sum.Data, k)) && sum.Data[k] == entry(sum.Data[k])
+//@   note (loop 1 ensures) C08, reading back: every line of the file (ys1 = bytes.Lines(data)) whose bytes.Fields has at least two fields stores exactly field 0 -> field 1 of THAT WHOLE LINE, and changes no other key; a line with fewer fields changes nothing. Nothing of a line (e.g. a "//" inside a base64 hash) is cut away before it is split
 //@   note a gengo.sum that cannot be read yields (nil, err): the caller then has no previous sums and regenerates everything; lines with fewer than two fields are ignored
 
 // ---- govc prelude: ghost helpers of the clause language (identical in every contracts_verif.go) ----
